@@ -70,7 +70,9 @@ func (f *Frame) enterLoop(li *loopInfo, cur *State, r string) (*State, string) {
 	if li.lc != nil {
 		ev := f.loopEval(li, cur, r)
 		for _, u := range li.lc.Uses {
-			ev.useAxiom(u)
+			if !strings.Contains(u.Text, "prev(") {
+				ev.useAxiom(u)
+			}
 		}
 		for _, inv := range li.lc.Invariants {
 			g, err := c.skolemGoal(inv.Expr, ev, r)
@@ -198,7 +200,9 @@ func (f *Frame) enterLoop(li *loopInfo, cur *State, r string) (*State, string) {
 			c.curTag = ""
 		}
 		for _, u := range li.lc.Uses {
-			ev.useAxiom(u)
+			if !strings.Contains(u.Text, "prev(") {
+				ev.useAxiom(u)
+			}
 		}
 		if li.lc.Decreases != nil {
 			li.variant0 = nil
@@ -252,6 +256,13 @@ func (f *Frame) closeLoop(li *loopInfo, st *State, cond string) {
 	c := f.c
 	if li.lc != nil {
 		ev := f.loopEval(li, st, cond)
+		{
+			uev := *ev
+			uev.prev = li.hdrState
+			for _, u := range li.lc.Uses {
+				uev.useAxiom(u)
+			}
+		}
 		for _, inv := range li.lc.Invariants {
 			g, err := c.skolemGoal(inv.Expr, ev, cond)
 			if err != nil {
